@@ -509,6 +509,23 @@ def gen_fault_sched(rng, kind, items, fault_free=False):
     sched = {"seed": rng.getrandbits(48), "seg": rng.choice(("full", "full", "byte", "small", "random", "mixed")), "p_fault": 0.0, "aims": []}
     if fault_free or kind in ("bytesio", "buffered"):
         return sched
+    if rng.random() < 0.25:
+        # timed model: physically plausible arrival of the peer's writes on a virtual clock;
+        # timeouts happen where the line is slower than the reader's patience
+        serial = kind == "serial"
+        return {
+            "model": "timed",
+            "seed": sched["seed"],
+            "gap": rng.choice((0.0, 0.01, 0.2, 1.0, 5.0)),
+            "mss": rng.choice((1, 4, 16, 64)) if serial else rng.choice((1, 8, 64, 536, 1460, 65536)),
+            "byte_time": rng.choice((0.0, 1.0 / 960, 1.0 / 11520, 1.0 / 46080)) if serial else 0.0,
+            "latency": rng.choice((0.0001, 0.02, 0.3)),
+            "jitter": rng.choice((0.0, 0.01, 0.5)),
+            "linger": rng.choice((0.0, 0.5, 30.0)),
+            "timeout": rng.choice((0.001, 0.05, 0.5, 3.0, None)),
+            "think": rng.choice((0.0, 0.00001, 0.001, 0.1)),
+            "writes": [len(it[1]) // 2 for it in items],
+        }
     offs = offsets_of(items)
     framelike = [i for i, it in enumerate(items) if it[0] in ("frame", "filler", "undec", "bad")]
     naims = rng.choice((0, 1, 1, 2, 3, 5))
@@ -559,5 +576,10 @@ def make_decider(scn, kind):
     if "decisions" in scn:
         return ScriptDecider([tuple(d) for d in scn["decisions"]])
     sch = scn["sched"]
+    if sch.get("model") == "timed":
+        from .transports import TimedDecider, timed_arrivals
+
+        arr, close_at = timed_arrivals(R.random.Random(sch["seed"]), sch["writes"], sch)
+        return TimedDecider(arr, close_at, sch["timeout"], sch["think"], wait_full=(kind == "serial"))
     faults = SERIAL_FAULTS if kind == "serial" else SOCK_FAULTS
     return RngDecider(R.random.Random(sch["seed"]), {"seg": sch["seg"], "p_fault": sch.get("p_fault", 0.0), "faults": faults, "aims": sch.get("aims", ())})
